@@ -27,13 +27,19 @@
    - "the writer writes every enqueued line exactly once, in order" is C16.
    - blocking adapter calls: a call that has not returned is simply a thread that
      takes no step; the theorems hold in every state, quiescent or not.
-   - what is not proved here: that a quiescent state is eventually reached
-     (termination measure); the statement is "whenever the machinery is at rest,
-     every request seen has exactly one reply". *)
+   - progress: [measure] (Model/ItemSpec3.v) strictly decreases on every step of the
+     library itself ([internal]: everything except arrivals and the start of
+     listener calls), and a reachable state that is not quiescent always has such
+     a step enabled (given that the adapter call in progress returns): with
+     finitely many arrivals and listener calls every maximal execution is finite
+     and ends quiescent, whatever the scheduler does and whatever the pool size
+     (the pool only decides WHEN an enabled job step happens; with n >= 1 workers a
+     queued job is eventually picked up once running ones end: Props/C04.v). *)
 From Coq Require Import String List Ascii NArith ZArith Bool.
 From LS Require Import Model.Bytes Model.Tags Gen.Consts Model.Codec Model.Writers Model.AriReply
   Model.Item Model.ItemSpec Proofs.ItemInv Proofs.ItemGlobal.
-From LS Require Proofs.ItemFifo Proofs.ItemMonA.
+From LS Require Import Model.ItemSpec3.
+From LS Require Proofs.ItemFifo Proofs.ItemMonA Proofs.ItemProgress.
 Import ListNotations.
 
 (* at most once: no request id has two reply lines, in any reachable state *)
@@ -81,6 +87,30 @@ Qed.
 Theorem c01_status : forall item s, reachable item s -> status_ok (s_hist s) = true.
 Proof. exact ItemMonA.status_ok_reachable. Qed.
 
+(* never left unanswered — progress: every step of the library strictly decreases a natural-number
+   measure, so no execution of the library alone is infinite ... *)
+Theorem c01_measure_decreases : forall s lb s',
+  step s lb = Some s' -> internal lb = true -> (measure s' < measure s)%nat.
+Proof. exact ItemProgress.internal_step_decreases. Qed.
+
+Theorem c01_internal_runs_bounded : forall ls s s',
+  run s ls = Some s' -> forallb internal ls = true -> (length ls + measure s' <= measure s)%nat.
+Proof. exact ItemProgress.internal_run_bounded. Qed.
+
+(* ... and the library is never stuck before it is at rest: some thread can always move *)
+Theorem c01_no_deadlock : forall item s,
+  reachable item s -> quiescent s = false ->
+  exists lb s', next_label s = Some lb /\ internal lb = true /\ env_ok s lb = true /\ step s lb = Some s'.
+Proof. exact ItemProgress.not_quiescent_can_step. Qed.
+
+(* hence from every reachable state the library alone reaches a state of rest within [measure s]
+   steps, where every request seen has exactly one reply *)
+Theorem c01_eventually_answered : forall item s,
+  reachable item s ->
+  exists ls s', run_env s ls = Some s' /\ forallb internal ls = true /\
+    replied (s_hist s') = seen (s_hist s') /\ NoDup (map t_rid (replied (s_hist s'))).
+Proof. exact ItemProgress.eventually_all_answered. Qed.
+
 (* any number of items, any pool size, any scheduling policy *)
 Theorem c01_all_items : forall allowed g,
   greach allowed g -> forall i,
@@ -122,5 +152,9 @@ Print Assumptions c01_replies_are_requests.
 Print Assumptions c01_exactly_once_at_rest.
 Print Assumptions c01_never_discarded.
 Print Assumptions c01_status.
+Print Assumptions c01_measure_decreases.
+Print Assumptions c01_internal_runs_bounded.
+Print Assumptions c01_no_deadlock.
+Print Assumptions c01_eventually_answered.
 Print Assumptions c01_all_items.
 Print Assumptions c01_example.
